@@ -179,6 +179,7 @@ fn finish(
         }
         let _ = h.join();
     }
+    sched().set_mode(Mode::Off); // the clean-up stop is not part of the behaviour
     let stopper = std::thread::spawn(move || {
         store.stop();
     });
